@@ -96,19 +96,22 @@ def check(ctx):
               construct="def _LSHNearest._get_neighbors (union)")
     pc = prog.method("_ApproximateNeighbors", "_predict_contexts")
     ctx.saw_fn(pc)
-    g1, b1 = find("_X_ = self._get_neighbors(row_2d)", pc.node)
-    g2, _ = find("_X_ = list(set(_X_))", pc.node, b1) if b1 else (None, None)
-    g2b, b2b = find("_X_ = list(set(self._get_neighbors(row_2d)))", pc.node)
-    X = (b1 or b2b or {}).get("_X_")
-    tr, _ = find("self._get_nhood_predictions(lp, _X_, row_2d, is_predict)", pc.node, {"_X_": X}) if X else (None, None)
+    g1, b1 = find("_X_ = self._get_neighbors(_R_)", pc.node)
+    g2, _ = find("_X_ = list(set(_X_))", pc.node, {"_X_": b1["_X_"]}) if b1 else (None, None)
+    g2b, b2b = find("_X_ = list(set(self._get_neighbors(_R_)))", pc.node)
+    bb = b1 or b2b or {}
+    X, Rw = bb.get("_X_"), bb.get("_R_")
+    tr, btr = find("self._get_nhood_predictions(_LP_, _X_, _R_, is_predict)", pc.node, {"_X_": X, "_R_": Rw}) \
+        if X else (None, None)
     ok_d = (g2 is not None or g2b is not None) and tr is not None and (g2 or g2b).lineno < tr.lineno
     gi = None
     for cand in ast.walk(pc.node):
         if isinstance(cand, ast.If) and X and ast.unparse(cand.test) in ("len(%s) > 0" % X, "len(%s)" % X, X,
                                                                        "len(%s) != 0" % X):
             gi = cand
-    ok_e = gi is not None and gi.orelse and "_get_nhood_predictions" in ast.unparse(gi.body[0]) and \
-        "_get_no_nhood_predictions(lp, is_predict)" in ast.unparse(gi.orelse[0])
+    ok_e = gi is not None and bool(gi.orelse) and btr is not None and \
+        find("self._get_nhood_predictions(_LP_, _X_, _R_, is_predict)", gi.body[0], btr)[0] is not None and \
+        find("self._get_no_nhood_predictions(_LP_, is_predict)", gi.orelse[0], {"_LP_": btr["_LP_"]})[0] is not None
     ctx.check(bool(ok_d), "R11.4", "duplicates are dropped before the neighbourhood policy is trained", pc.node, pc,
               construct="de-duplication in _predict_contexts")
     ctx.check(bool(ok_e), "R11.4", "an empty candidate set takes the empty-neighbourhood path", pc.node, pc,
